@@ -452,6 +452,58 @@ def startup_job(job):
     return part
 
 
+def late_source_job(method):
+    """The mirror is set up before its source directory exists; a finished recording is then moved into place.  The
+    watcher's own announcement of what it finds there (no observer thread is started: the queued events are pumped
+    through the observer's dispatch_events) must lead to the same end state as live events would."""
+    from digital_rf import mirror as mirror_mod
+    import contextlib
+    import io
+
+    seed = core.seed()
+    part = core.new_part()
+    root = core.new_scratch()
+    try:
+        staging = os.path.join(root, "staging")
+        files = make_recording(staging, seed)
+        master_sha = {f: sha(os.path.join(staging, f)) for f in files}
+        src = os.path.join(root, "data", "src")
+        dest = os.path.join(root, "dest")
+        os.makedirs(os.path.join(root, "data"))
+        shutil.copytree(staging, os.path.join(root, "data", "master"))  # (reference copy the end oracle reads)
+        os.makedirs(dest)
+        errs = []
+        with contextlib.redirect_stdout(io.StringIO()), contextlib.redirect_stderr(io.StringIO()):
+            mir = mirror_mod.DigitalRFMirror(src, dest, method=method)
+            obs = mir.observer
+            obs._stop_watching_path()        # what DirWatcher.start() does while the path is missing
+            os.rename(staging, src)
+            obs._start_watching_path()       # what it does when the path appears
+            n = 0
+            try:
+                while not obs.event_queue.empty() and n < 10000:
+                    obs.dispatch_events(obs.event_queue)
+                    n += 1
+            except Exception as e:  # noqa: BLE001
+                errs.append(({"class": "handler_raised", "exc": type(e).__name__}, repr(e)))
+            obs._stop_watching_path()
+        rf_files = sorted(f for f in files if classify(f) == "rf")
+        md_files = sorted(f for f in files if classify(f) == "md")
+        hist = [("created", f) for f in files]
+        errs += end_oracle(method, src, dest, files, set(files), master_sha, hist, rf_files, md_files)
+        part["evaluations"] += 1
+        part["transitions"] += n
+        part["traces"] += 1
+        part["nontrivial"].add(core.canon(("late_source", method)))
+        part["states"].add(core.canon(("late_source", method)))
+        part["outcomes"]["late_source events=%d" % n] += 1
+        for key, detail in errs:
+            part["violations"].append(core.Violation(dict(key, late_source=True), {"late_source": method}, detail))
+    finally:
+        core.rm(root)
+    return part
+
+
 def jobs(tier):
     seed_files = None
     out = []
@@ -486,6 +538,8 @@ def jobs(tier):
 
 
 def replay(case):
+    if "late_source" in case:
+        return [(v["key"], v["detail"]) for v in late_source_job(case["late_source"])["violations"]]
     if "startup" in case:
         part = startup_job(tuple(case["startup"]))
     else:
@@ -519,5 +573,7 @@ def main(tier):
         chk.merge(part)
     sjobs = [(m, ie) for m in ("copy", "link", "move") for ie in (False, True)] + [(m, False, True) for m in ("copy", "link", "move")]
     for part in core.pmap(startup_job, sjobs, chunksize=1):
+        chk.merge(part)
+    for part in core.pmap(late_source_job, ["copy", "link", "move"], chunksize=1):
         chk.merge(part)
     return chk.finish()
